@@ -126,6 +126,23 @@ EDITS = [
   "                self._pids.remove(pid)\n", "                pass\n", 'remove_pilots'),
  ('assign-wrong-pilot', 'C12', 'tmgr/scheduler/base.py',
   "        task['pilot'            ] = pid\n", "        task['pilot'            ] = task.get('pilot')\n", '_assign_pilot'),
+ ('cancel-no-ownership-test', 'C07', 'agent/executing/popen.py',
+  "            if tid not in self._tasks:\n                return\n            try:\n                del self._tasks[tid]\n            except KeyError:\n                pass\n\n        # task is still running -- cancel it",
+  "            self._tasks.pop(tid, None)\n\n        # task is still running -- cancel it", 'cancel_task'),
+ ('watcher-collects-canceled', 'C07', 'agent/executing/popen.py',
+  "                    if tid not in self._tasks:\n                        # task was canceled before, nothing to do\n                        continue\n",
+  "", '_check_running'),
+ ('exit-code-mapping', 'C05', 'agent/executing/popen.py',
+  "                if exit_code == 0:\n                    # The task finished cleanly",
+  "                if exit_code >= 0:\n                    # The task finished cleanly", '_check_running'),
+ ('cancel-all-tasks', 'C08', 'agent/executing/base.py',
+  "                task = self.get_task(tid)\n                if task:\n                    self.cancel_task(task)",
+  "                for task in list(self._tasks.values()):\n                    self.cancel_task(task)", 'control_cb'),
+ ('master-exit-none-done', 'C05', 'raptor/master.py',
+  "                if ret is None:\n                    ret = -1", "                if ret is None:\n                    ret = 0", '_result_cb'),
+ ('agent-advance-pushes-failed', 'C05', 'utils/component.py',
+  "              #     thing['state'] = state\n\n            publish = True\n            push    = False",
+  "              #     thing['state'] = state\n\n            publish = True\n            push    = True", 'AgentComponent.advance'),
 ]
 
 
